@@ -196,6 +196,15 @@ def gen_plan(seed, tier, index):
         prev = b
     cap = max(b['w'] for b in batches) // 4
     m['max_seq_len'] = cap + 2 if r.random() < 0.4 else 4 * cap + 8
+    if r.random() < 0.06:
+        # the engine's public entry point: run_ocr centre-pads narrow batches to 1088 px
+        batches = []
+        for _ in range(r.randint(2, 3)):
+            batches.append({'n': r.randint(1, 3), 'w': r.choice([64, 128, 256, 512, 1120]), 'seed': r.randrange(1 << 30),
+                            'cached': True, 'via': 'run_ocr'})
+        m['max_seq_len'] = 1120 // 4 + 2 if r.random() < 0.5 else 400
+        m['eos_q'] = r.choice([0.6, 0.8, 0.9])
+        m['dec_layers'] = min(m['dec_layers'], 2)
     return {'world': 'tr', 'model': m, 'poison': r.choice(['nan', 'nan', 'garbage']), 'batches': batches}
 
 
@@ -340,6 +349,63 @@ def check_batch(res, ctx, k, b, x, outs, logits):
     return True
 
 
+def run_ocr_batch(res, ctx, k, b, x, proj, log):
+    """One batch through TransformerEngineLineOCR.run_ocr (uint8 NHWC in, centre padding to 1088 px):
+    must equal transcribe_batch on a fresh model given the explicitly padded input."""
+    torch = _torch()
+    m, pristine, live = ctx['m'], ctx['pristine'], ctx['live']
+    nhwc = np.ascontiguousarray(np.transpose(x, (0, 2, 3, 1)))
+    w = x.shape[3]
+    if w < 1088:
+        padded = np.zeros((x.shape[0], 3, x.shape[2], 1088), dtype=np.uint8)
+        s0 = (1088 - w) // 2
+        padded[:, :, :, s0:s0 + w] = x
+    else:
+        padded = x
+    cap_steps = padded.shape[3] // 4 + 1
+    proj.calls, proj.abort_at, proj.cap = 0, None, cap_steps + 3
+    try:
+        decoded, logits = sut('run_ocr', live.run_ocr, nhwc)
+        ref = make_engine(copy.deepcopy(pristine), m['nsym'])
+        ref.net.dec_out_proj.cap = cap_steps + 3
+        ref_outs, ref_logits = sut('transcribe_batch(fresh, padded)', ref.transcribe_batch, padded, is_cached=True)
+    except SutRaised as e:
+        _viol(res, 'termination', 'decode-raised|%s|%s' % (e.where, type(e.exc).__name__), str(e)[:300], k)
+        return False
+    except kernel.StepCapExceeded:
+        _viol(res, 'liveness', 'no-termination-within-cap', 'run_ocr did not stop within the cap for width %d' % w, k)
+        return False
+    logits = torch.from_numpy(np.asarray(logits))
+    log.add('live', 'run_ocr', [k, b['n'], w, logits.shape[1], kernel.sha(logits.numpy().round(2).tolist())])
+    res.probe('run_ocr_batches')
+    if w < 1088:
+        res.probe('run_ocr_centre_padded')
+    d = _maxdiff(logits, ref_logits)
+    near_tie = min_margin(ref_logits) < TIE
+    if d > TOL and not (near_tie and logits.shape != ref_logits.shape):
+        _viol(res, 'cache', 'run_ocr-vs-fresh-scores', 'run_ocr scores differ from a fresh model on the padded input by %.3g' % d, k)
+        return False
+    want = ref.decode(ref_outs)
+    if list(decoded) != list(want) and not near_tie:
+        _viol(res, 'cache', 'run_ocr-vs-fresh-transcription', 'run_ocr gave %r, a fresh model %r' % (decoded, want), k)
+        return False
+    if any('\u200b' in t for t in decoded):
+        _viol(res, 'output', 'boundary-or-ignore-in-output', 'run_ocr text contains the boundary character', k)
+        return False
+    # teacher-forced pass over the symbols that were fed
+    steps = logits.shape[1]
+    eos = live.sentence_boundary_ind
+    samples = logits.argmax(dim=-1)
+    fed = torch.cat([torch.full((1, b['n']), eos, dtype=torch.long), samples.permute(1, 0)[:steps - 1]], dim=0)
+    xt = torch.from_numpy(padded).float() / 255.0
+    tf = sut('forward', copy.deepcopy(pristine).forward, xt, fed.permute(1, 0)).permute(1, 0, 2)
+    d = _maxdiff(tf, logits)
+    if d > TOL:
+        _viol(res, 'cache', 'stepwise-vs-teacher-forced-scores', 'run_ocr scores differ from the masked forward pass by %.3g' % d, k)
+        return False
+    return True
+
+
 def execute(plan):
     torch = _torch()
     from pero_ocr.ocr_engine import transformer
@@ -351,7 +417,7 @@ def execute(plan):
     try:
         with quiet(), torch.no_grad():
             pristine = build_net(m)
-            bias = calibrate_eos(pristine, m, min(64, max(bb['w'] for bb in plan['batches'])))
+            bias = calibrate_eos(pristine, m, min(64, max(bb['w'] for bb in plan['batches'])) if not plan['batches'][0].get('via') else 256)
             log.add('model', 'built', [m['dim'], m['heads'], m['dec_layers'], m['max_seq_len'], round(bias, 4)])
             transformer.torch = TorchProxy(real_torch, plan['poison'], stats)
             live_net = copy.deepcopy(pristine)
@@ -367,6 +433,12 @@ def execute(plan):
                 cap_steps = b['w'] // 4 + 1
                 proj.calls, proj.abort_at, proj.cap = 0, b.get('abort_at'), cap_steps + 3
                 hist.append('%d:%d:%s' % (b['n'], b['w'], 'c' if b['cached'] else 'u'))
+                if b.get('via') == 'run_ocr':
+                    ok = run_ocr_batch(res, ctx, k, b, x, proj, log)
+                    prev = b
+                    if not ok:
+                        break
+                    continue
                 try:
                     outs, logits = sut('transcribe_batch', live.transcribe_batch, x, is_cached=b['cached'])
                 except kernel.InjectedFault:
